@@ -2,6 +2,7 @@ import GnoVerif.Proofs.C52Esc
 import GnoVerif.Proofs.C52Tok
 import GnoVerif.Proofs.C52Url
 import GnoVerif.Proofs.C52Dec
+import GnoVerif.Proofs.C52Link
 /-!
 # C52 — gnoweb never turns realm output into executable web content
 
@@ -135,18 +136,8 @@ example : (tokenize (B!"<a title=\"" ++ tesc (B!"x\" onclick=\"y") ++ B!"\">")).
 /-- goldmark's order — escape, then check the escaped bytes — is safe for every destination
     and every entity table: the browser's reading of the attribute is never script-capable. -/
 theorem href_esc_check_never_script_capable (lk lk' : Lookup) (hk : KnowsBasic lk') (dest : Bytes) :
-    scriptCapable (decodeRefs lk' (hrefEscCheck lk dest)) = false := by
-  unfold hrefEscCheck
-  simp only
-  by_cases hd : isDangerousURL (urlEscape lk dest) = true
-  · rw [if_pos hd]; rfl
-  · rw [if_neg hd, decodeRefs_gesc lk' hk]
-    have hclean : Pre37Clean (urlEscape lk dest) :=
-      pre37Clean_of_cleanPrefix _ (escLoop_clean _)
-    rw [scriptCapable_nulFix _ hclean]
-    cases hv : schemeVerdict (urlEscape lk dest) with
-    | false => rfl
-    | true => exact absurd (dangerous_of_verdict _ hv) hd
+    scriptCapable (decodeRefs lk' (hrefEscCheck lk dest)) = false :=
+  hrefEscCheck_safe lk lk' hk dest
 
 /-- gnoweb `renderGnoLink` (ext_links.go, as fixed by 4ecd5c7d05) -/
 theorem link_href_never_script_capable (lk lk' : Lookup) (hk : KnowsBasic lk') (dest : Bytes) :
@@ -174,6 +165,49 @@ example : scriptCapable (B!"data:text/html,x") = true ∧ scriptCapable (B!"data
 /-- and the model blocks them -/
 example : linkHref basicLookup (B!"java&#115;cript&colon;alert(1)") = [] := by decide
 example : linkHref basicLookup (B!"/r/demo/foo?a=1&b=2") = B!"/r/demo/foo?a=1&amp;b=2" := by decide
+
+/-! ## 5. the whole element `renderGnoLink` writes -/
+
+/-- Around any text without `<`, what `renderGnoLink` writes is read by the tokenizer as exactly:
+    ONE start tag `a` whose attributes are `href` (= `linkHref`), `rel` (external / untrusted
+    links), `title` (escaped) — then the constant icon tags and `</a>`.  Neither the destination
+    nor the title can add a tag or an attribute. -/
+theorem link_element_tokens (lk : Lookup) (n : LinkIn) (hty : n.ty ≠ 0) (txt : Bytes)
+    (htxt : ∀ b ∈ txt, b ≠ 60) :
+    tokenize (renderGnoLink lk n txt) =
+      { name := B!"a", closing := false, attrs := linkAttrs lk n } :: tokenize (linkClose n) :=
+  link_tokens lk n hty txt htxt
+
+/-- …and the element is safe as a browser reads it, for every link type, destination, title
+    and entity table (the full statement restricted to the link renderer). -/
+theorem link_element_safe (lk lk' : Lookup) (hk : KnowsBasic lk') (n : LinkIn) (txt : Bytes)
+    (htxt : ∀ b ∈ txt, b ≠ 60) : safeHTML lk' (renderGnoLink lk n txt) = true := by
+  unfold safeHTML
+  by_cases hty : n.ty = 0
+  · have : renderGnoLink lk n txt = B!"<!-- invalid link -->" := by
+      unfold renderGnoLink linkOpen; simp [hty]
+    rw [this]
+    have ht : tokenize (B!"<!-- invalid link -->") = [] := by decide
+    rw [ht]; rfl
+  · rw [link_tokens lk n hty txt htxt]
+    have : firstProblem lk' ({ name := [97], closing := false, attrs := linkAttrs lk n } :: tokenize (linkClose n)) = 0 := by
+      apply firstProblem_zero
+      intro t ht
+      rcases List.mem_cons.1 ht with ht | ht
+      · subst ht; exact linkOpen_tag_safe lk lk' hk n
+      · exact tagProblem_of_plain lk' t
+          (List.all_eq_true.1 (closeVariants_plain _ (linkClose_mem n hty)) t ht)
+    simp [this]
+
+set_option maxRecDepth 100000 in
+example : (tokenize (renderGnoLink basicLookup
+    { ty := 1, untrusted := false, help := false, dest := B!"/x\" onclick=\"alert(1)",
+      title := some (B!"\"><script>alert(1)</script>") } (B!"x"))).map (fun t => (t.name, t.attrs.map (·.1)))
+    = [(B!"a", [B!"href", B!"rel", B!"title"]),
+       (B!"span", [B!"class", B!"data-tooltip-target", B!"data-tooltip", B!"title"]),
+       (B!"svg", [B!"class"]), (B!"use", [B!"href"]), (B!"use", []), (B!"svg", []), (B!"span", []),
+       (B!"a", [])] := by
+  decide
 
 /-- The pre-fix `renderGnoLink` — `IsDangerousURL` on the RAW destination, then
     `EscapeHTML(URLEscape(dest, true))` — serves a `javascript:` href: the witness of the
